@@ -38,6 +38,7 @@ def compile_ll(src, extra=()):
 def repo_sources(names):
     return [n if os.path.isabs(n) else os.path.join(REPO, 'src', n) for n in names]
 
+SLOTS = {'vm': 0, 'tok': 1, 'api': 2, 'pbo': 3, 'fio': 4, 'misc': 5}
 def build_unit(name, sources, roots, stub=(), extra_flags=(), check_ub=True, keep_ctors=True):
     """compile+link+internalize+dce, translate to Python. returns (py_path, info)"""
     os.makedirs(WORK, exist_ok=True)
@@ -52,13 +53,13 @@ def build_unit(name, sources, roots, stub=(), extra_flags=(), check_ub=True, kee
     api = ','.join(list(roots))
     sh(['opt-14', '-S', '-internalize', '-internalize-public-api-list=' + api, '-globaldce', link, '-o', unit])
     t2 = time.time()
-    key = hashlib.sha1(open(unit, 'rb').read() + repr((sorted(stub), check_ub)).encode() + open(os.path.join(HERE, 'll2py.py'), 'rb').read() + open(os.path.join(HERE, 'll2c.py'), 'rb').read()).hexdigest()[:20]
+    key = hashlib.sha1(open(unit, 'rb').read() + repr((sorted(stub), check_ub, SLOTS.get(name, 6))).encode() + open(os.path.join(HERE, 'll2py.py'), 'rb').read() + open(os.path.join(HERE, 'll2c.py'), 'rb').read()).hexdigest()[:20]
     py = os.path.join(udir, 'unit_%s_%s.py' % (name, key))
     if not os.path.exists(py):
         sys.path.insert(0, HERE)
         import ll2py
         mod = ll2py.parse_module(open(unit).read())
-        g = ll2py.Gen(mod, check_ub=check_ub)
+        g = ll2py.Gen(mod, check_ub=check_ub, slot=SLOTS.get(name, 6))
         src = g.run(list(roots), set(stub))
         for f in os.listdir(udir):
             if f.startswith('unit_') and (f.endswith('.py') or f.endswith('.marshal')): os.unlink(os.path.join(udir, f))
@@ -93,14 +94,14 @@ def load_unit(py, run_ctors=True):
     try: ctypes.CDLL('libc.so.6').malloc_trim(0)     # the compiler's temporary memory goes back to the OS: forks get much cheaper
     except Exception: pass
     G = m.init_globals()
-    rt.MODULE_GLOBALS = [G]
-    rt.MODULE = [m]
+    if rt.MODULE_GLOBALS[0] is None: rt.MODULE_GLOBALS = [G]
+    rt.MODULE = [m]; rt.MODULES.append(m)
     # type_info vtables (external globals): record their +16 addresses for inheritance walks
     for i, n in enumerate(('_ZTVN10__cxxabiv120__si_class_type_infoE', '_ZTVN10__cxxabiv117__class_type_infoE', '_ZTVN10__cxxabiv121__vmi_class_type_infoE')):
-        if n in G: rt.TI_SI_VTABLE[i] = G[n] + 16
+        if n in G: rt.TI_SI_VTABLE[i].add(G[n] + 16)
     for n, a in G.items():
         if n.startswith('_ZTI') and n[4:] in cxxlib.STD_EXC:
-            cxxlib.STD_TI[n[4:]] = a
+            rt.TI_CANON[a] = cxxlib.STD_TI.setdefault(n[4:], a)
     for n in list(cxxlib.STD_TI):
         rt.TI_BASES[cxxlib.STD_TI[n]] = [cxxlib.std_typeinfo(b, G) for b in cxxlib.STD_EXC.get(n, [])]
     if '__libc_single_threaded' in G: rt.st(G['__libc_single_threaded'], 1, 1)
